@@ -854,9 +854,25 @@ func (s *PrintCtx) pcTryQuoteValue(val string) {
 		// s.pcAppendByte('"')
 		// s.appendEscapedJSONString(val)
 		// s.pcAppendByte('"')
+	} else if needsQuoting(val) {
+		// never hand raw control or escape bytes of a value to the terminal
+		s.appendQuotedString(val)
 	} else {
 		s.pcAppendStringValue(val)
 	}
+}
+
+// needsQuoting reports whether val holds anything but printable runes
+// (control characters, ESC, invalid UTF-8, ...).
+func needsQuoting(val string) bool {
+	for i := 0; i < len(val); {
+		r, n := utf8.DecodeRuneInString(val[i:])
+		if (r == utf8.RuneError && n == 1) || !strconv.IsPrint(r) {
+			return true
+		}
+		i += n
+	}
+	return false
 }
 
 func (s *PrintCtx) pcQuoteValue(val string) {
